@@ -205,7 +205,8 @@ def timeout_table(cx, futp):
     lst = v.id
     loops = [s for s in ast.walk(fn) if isinstance(s, ast.For) and ast.unparse(s.iter) == 'self.pending_list'
              and any(isinstance(c, ast.Call) and callee_attr(c) == 'append' and ast.unparse(c.func.value) == lst for c in ast.walk(s))]
-    inits = [s for s in ast.walk(fn) if isinstance(s, ast.Assign) and ast.unparse(s.targets[0]) == lst and isinstance(s.value, ast.List) and not s.value.elts]
+    inits = [s for s in ast.walk(fn) if isinstance(s, (ast.Assign, ast.AnnAssign)) and ast.unparse(s.targets[0] if isinstance(s, ast.Assign) else s.target) == lst
+             and isinstance(s.value, ast.List) and not s.value.elts]
     if len(loops) != 1 or len(inits) != 1:
         raise _Unknown(f'how `{lst}` is built')
     ev = ast.unparse(loops[0].target)
